@@ -587,6 +587,19 @@ func (n *Net) UnixInject(path string, data []byte) int {
 	return cnt
 }
 
+// UnixQueueLen: datagrams waiting on the live unix sockets dialled to path (a
+// unix datagram sender blocks while the receiver's queue is full: the simulated
+// sender looks before it injects).
+func (n *Net) UnixQueueLen(path string) int {
+	l := 0
+	for _, sk := range n.socks {
+		if sk.kind == skUnix && !sk.closed && !n.w.Sim.IncDead(sk.inc) && sk.remote == path && len(sk.q) > l {
+			l = len(sk.q)
+		}
+	}
+	return l
+}
+
 // ---------------------------------------------------------------- misc lookups
 
 type Iface struct {
